@@ -212,13 +212,13 @@ func judge(secret, u, s, t string, base int64) (int, string) {
 	if !isInt {
 		return legitNo, "malformed-ts"
 	}
-	age := base - v
+	// comparisons only (base - v overflows int64 for v near MinInt64)
 	switch {
-	case age >= 301:
+	case v <= base-301:
 		return legitNo, "stale-ts"
-	case age >= 290:
+	case v <= base-290:
 		return legitDontCare, "edge-ts"
-	case age < -10:
+	case v > base+10:
 		return legitDontCare, "future-ts"
 	}
 	return legitYes, "ok"
@@ -264,13 +264,15 @@ type sigSet struct {
 // genSigned generates the redirect_uri / sig / ts parameters of one signed request (sign_in, sign_out,
 // or the nested part of /start).
 func (rn *runner) genSigned(r *rand.Rand, base int64, modeA bool, ti int) *sigSet {
-	return rn.genSignedMode(r, base, modeA, false, ti)
+	return rn.genSignedMode(r, base, modeA, "", ti)
 }
 
-// genSignedMode: justStale forces the "stale by a small margin, otherwise impeccable" class.
-func (rn *runner) genSignedMode(r *rand.Rand, base int64, modeA, justStale bool, ti int) *sigSet {
+// genSignedMode: force "just-stale" = the "stale by a small margin, otherwise impeccable" class,
+// "extreme-ts" = an extreme / oddly spelled timestamp under a valid signature.
+func (rn *runner) genSignedMode(r *rand.Rand, base int64, modeA bool, force string, ti int) *sigSet {
 	cfg := rn.cfg
-	if justStale {
+	justStale, extreme := force == "just-stale", force == "extreme-ts"
+	if force != "" {
 		modeA = false
 	}
 	ss := &sigSet{}
@@ -300,9 +302,12 @@ func (rn *runner) genSignedMode(r *rand.Rand, base int64, modeA, justStale bool,
 	// timestamp + signature variants
 	tsIdx := freshTS[r.Intn(len(freshTS))]
 	sigVar := "valid"
-	if !modeA && (justStale || r.Intn(3) == 0) {
+	if !modeA && !extreme && (justStale || r.Intn(3) == 0) {
 		// stale by a small margin (inside a typical clock-skew allowance), otherwise impeccable
 		tsIdx = justStaleTS[r.Intn(len(justStaleTS))]
+	} else if !modeA && (extreme || r.Intn(4) == 0) {
+		// extreme value or odd spelling, signature valid for exactly that timestamp
+		tsIdx = extremeTS[r.Intn(len(extremeTS))]
 	} else if !modeA {
 		switch r.Intn(3) {
 		case 0: // vary the timestamp, keep the signature valid for it
@@ -319,7 +324,7 @@ func (rn *runner) genSignedMode(r *rand.Rand, base int64, modeA, justStale bool,
 	canon := ""
 	if v, ok := parseIntStrict(tsStr); ok {
 		canon = strconv.FormatInt(v, 10)
-		if strings.HasPrefix(tsStr, "+") && r.Intn(2) == 0 {
+		if (strings.HasPrefix(tsStr, "+") || (canon != tsStr && isExtremeTS(tsVariants[tsIdx].name))) && r.Intn(2) == 0 {
 			canon = "" // sign the raw text instead
 		}
 	}
@@ -701,6 +706,21 @@ func (rn *runner) verdict2(i int, endpoint, kind string, acted bool, loc string,
 		rep.Count(name, 1)
 		if !acted && rs.Status >= 400 {
 			rep.Count("just_stale_refused", 1)
+		}
+	}
+	if (anyWhy == "stale-ts" || anyWhy == "malformed-ts") && isExtremeTS(ss.tsVar) && ss.sigVar == "valid" && ss.dup == "single" && ss.family == "good" &&
+		kc.Place != "wrong-client-id" && kc.Place != "no-client-id" && (endpoint != "start" || kc.Position == "nested") {
+		name := "extreme_ts_judged_" + endpoint
+		if endpoint == "sign_out" {
+			name += "_" + kc.Method
+		}
+		rep.Count(name, 1)
+		rep.Count("extreme_ts_variant_"+ss.tsVar, 1)
+		if isNearMinInt64(ss.tsVar) {
+			rep.Count("extreme_ts_near_min_int64_judged", 1)
+		}
+		if !acted && rs.Status >= 400 {
+			rep.Count("extreme_ts_refused", 1)
 		}
 	}
 	if acted {
@@ -1317,6 +1337,16 @@ func TestProp(t *testing.T) {
 			rep.Floor("any_just_stale_judged_"+f, 4)
 		}
 		rep.Floor("just_stale_refused", 100)
+		// extreme / oddly spelled timestamps under a valid signature
+		for _, f := range []string{"sign_in", "sign_out_POST", "start", "flow=callback-then-sign_in", "flow=start-tamper-callback-sign_in"} {
+			rep.Floor("extreme_ts_judged_"+f, 5)
+		}
+		rep.Floor("extreme_ts_judged_sign_out_GET", 3)
+		for _, f := range []string{"sign_in_GET", "sign_out_GET", "sign_out_POST", "start_GET"} {
+			rep.Floor("any_extreme_ts_judged_"+f, 3)
+		}
+		rep.Floor("extreme_ts_near_min_int64_judged", 30)
+		rep.Floor("extreme_ts_refused", 100)
 	}
 	if !replaying {
 		rep.Floor("code_redirects", 50)
